@@ -22,13 +22,13 @@ ID = "C15"
 LEVEL = "exploration"
 RULE = (
     "complete breadth-first exploration per (language, expression): configurations = (DFA state, abstract state of "
-    "each stateful predicate: depth class in {0,1,2,>=3} plus all other attributes); each configuration x each token class is one evaluation (the witness token "
+    "each stateful predicate: depth class in {<0,0,1,2,>=3} plus all other attributes); each configuration x each token class is one evaluation (the witness token "
     "sequence is replayed through a fresh Pattern); non-trivial = configuration with some nesting depth > 0; "
     "distinct = distinct (language, expression, configuration, token class), visited once"
 )
 ASSUMPTIONS = [
-    "depth >= 3 behaves like depth 3 (Balanced only tests depth against 0)",
-    "token classes: Keyword/Name/Punctuation/Operator/String/Number x the values distinguished by the language's predicates; "
+    "depth >= 3 behaves like depth 3 and every negative depth like -1 (Balanced only tests depth against 0); more than 20 000 abstract configurations for one pattern is a harness error",
+    "token classes: every standard Pygments token type that survives filtering, sub-kinds included (Keyword.Type, Name.Function, Operator.Word ...), x the values distinguished by the language's predicates; "
     "String pieces may carry any text (Pygments splits string literals), Name tokens may read like keywords",
     "follow-up patterns are explored up to their first accepting state, as starts_with does",
 ]
